@@ -50,6 +50,13 @@ def layouts(ctx):
     Q = {"$id": "http://x/q", "type": "object", "properties": {"z": {"type": "string"}}}
     out.append(("one-package-two-files", {"p.json": P, "q.json": Q}, {"http://x/p": ("example.com/pk", "pk/p.go"), "http://x/q": ("example.com/pk", "pk/q.go")},
                 [["p.json", "q.json"]], None))
+    # ... both files with generated methods (each file needs its own encoding imports), and a third file of the same package
+    P2 = {"$id": "http://x/p", "type": "object", "properties": {"q": {"$ref": "q.json"}, "name": {"type": "string", "minLength": 1}, "kind": {"enum": ["a", "b"]}}, "required": ["name"]}
+    Q2 = {"$id": "http://x/q", "type": "object", "properties": {"z": {"type": "string", "pattern": "^z"}, "n": {"type": "integer", "minimum": 1}}, "required": ["z"]}
+    R2 = {"$id": "http://x/r", "type": "object", "properties": {"when": {"type": "string", "format": "date-time"}, "tags": {"type": "array", "items": {"type": "string"}, "minItems": 1}}, "required": ["when"]}
+    out.append(("one-package-three-files-with-methods", {"p.json": P2, "q.json": Q2, "r.json": R2},
+                {"http://x/p": ("example.com/pk", "pk/p.go"), "http://x/q": ("example.com/pk", "pk/q.go"), "http://x/r": ("example.com/pk", "pk/r.go")},
+                [["p.json", "q.json", "r.json"], ["r.json", "p.json"]], None))
     # no mappings at all: everything to the default output
     out.append(("defaults", {"p.json": {k: v for k, v in P.items() if k != "$id"}, "q.json": {k: v for k, v in Q.items() if k != "$id"}}, {}, [["p.json", "q.json"]], None))
     # four files, diamond
@@ -143,12 +150,12 @@ def run(ctx):
     runs, meta = [], []
     for li, (name, files, maps, arglists, same_as) in enumerate(lay):
         fs = {"in/" + k: (json.dumps(v) if not k.endswith(".yaml") else json.dumps(v)) for k, v in files.items()}
-        for args in arglists:
+        for ai, args in enumerate(arglists):
             perms = list(itertools.permutations(args))
             if ctx.tier == "quick" and len(perms) > 6:
                 perms = perms[::4]
             for pi, perm in enumerate(perms):
-                runs.append(Run("l%dp%d" % (li, pi), fs, argv_for(maps, list(perm))))
+                runs.append(Run("l%da%dp%d" % (li, ai, pi), fs, argv_for(maps, list(perm))))
                 meta.append((li, name, perm))
     # every top-level file also on its own: its output must be the same as in the combined run
     alone = []
